@@ -215,7 +215,7 @@ var famE6C11 = set("call-after-close", "exclusive-calls-overlap", "update-index-
 	"lookup-overlaps-close", "savesnapshot-overlaps-update", "savesnapshot-overlaps-recoverfromsnapshot", "savesnapshot-overlaps-close",
 	"update-overlaps-lookup", "completed-request-never-applied", "savesnapshot-overlaps-close")
 var famE6C12 = set("completed-with-foreign-result", "dropped-request-applied", "completed-request-never-applied", "no-terminal-result", "two-results",
-	"committed-then-dropped", "committed-notified-never-applied", "logquery-wrong-range", "logquery-undecodable-entry", "logquery-returned-uncommitted-entry")
+	"committed-then-dropped", "committed-notified-never-applied", "logquery-wrong-range", "logquery-undecodable-entry", "logquery-returned-uncommitted-entry", "snapshot-request-completed-without-snapshot")
 
 var famE6C02 = set("replicas-applied-different-entries", "update-index-not-increasing", "write-applied-twice", "command-payload-altered",
 	"replica-state-differs-at-same-index", "ondisk-update-at-or-below-open-index", "snapshot-content-not-at-snapshot-index", "installed-snapshot-content-not-at-snapshot-index")
